@@ -33,22 +33,27 @@ try:
     touched = sorted(set(re.findall(r"^\+\+\+ b/(\S+)", patch, re.M)))
     pkgs = sorted(set("./" + (os.path.dirname(f) or ".") for f in touched if f.endswith(".go")))
     res["touched"] = touched
-    demos = [f for f in glob.glob(os.path.join(d, "*")) if os.path.basename(f) not in ("patch.diff", "meta.json") and os.path.isfile(f)]
+    demos = [f for f in glob.glob(os.path.join(d, "*")) if os.path.basename(f) not in ("patch.diff", "meta.json", "PLACEMENT.txt", "README.md", "README.txt") and os.path.isfile(f)]
     place = meta.get("demo_placement", "")
     # demo placement: a directory relative to the repo root, guessed from meta or from the package of the patch
-    m = re.search(r"([\w./-]*/)?([\w-]+/)*", place)
     demo_dir = None
-    for cand in re.findall(r"[\w./-]+", place):
+    cands = re.findall(r"/tmp/seed-C\d+/([\w./-]*)", place) + [t for t in re.findall(r"[\w./-]+", place) if "/" in t]
+    for cand in cands:
         c = cand.strip("./")
-        c = re.sub(r"^tmp/seed-C\d+/", "", c)
-        c = re.sub(r"/?verif_demo\S*$", "", c)
+        c = re.sub(r"/?verif_demo\S*$", "", c).strip("/")
         if c == "":
             c = "."
-        if os.path.isdir(os.path.join(wt, c)) and (c == "." or not c.startswith("tmp")):
+        if not c.startswith("tmp") and os.path.isdir(os.path.join(wt, c)):
             demo_dir = c
             break
     if demo_dir is None:
         demo_dir = os.path.dirname(touched[0]) or "."
+    if os.path.exists(os.path.join(d, "PLACEMENT.txt")):
+        for cand in re.findall(r"/tmp/seed-C\d+/([\w./-]*)", open(os.path.join(d, "PLACEMENT.txt")).read()):
+            c = re.sub(r"/?verif_demo\S*$", "", cand.strip("./")).strip("/") or "."
+            if os.path.isdir(os.path.join(wt, c)):
+                demo_dir = c
+                break
     res["demo_dir"] = demo_dir
     demo_tests = [f for f in demos if f.endswith("_test.go")]
     other = [f for f in demos if not f.endswith("_test.go")]
